@@ -257,9 +257,18 @@ class OrderedObj:
     """struct presented as an object declaring its field order"""
 
     def __init__(self, values, sig=None):
-        self.dbusOrder = ['f%d' % i for i in range(len(values))]
-        for n, v in zip(self.dbusOrder, values):
-            setattr(self, n, v)
+        # a field whose value equals an earlier field's is declared by naming that attribute again
+        # (dbusOrder = ['lo', 'hi', 'lo']): the order lists positions, not distinct attributes
+        names = []
+        for i, v in enumerate(values):
+            for j in range(i):
+                if type(values[j]) is type(v) and isinstance(v, (bool, int, str)) and values[j] == v:
+                    names.append(names[j])
+                    break
+            else:
+                names.append('f%d' % i)
+                setattr(self, names[-1], v)
+        self.dbusOrder = names
         if sig is not None:
             self.dbusSignature = sig
 
